@@ -6,6 +6,7 @@ import (
 	"fmt"
 	"runtime"
 	"sync"
+	"sync/atomic"
 	"strconv"
 	"strings"
 	"time"
@@ -20,6 +21,9 @@ import (
 )
 
 var alpha = rig.Alphabet()
+
+// lastTrouble remembers why the most recent history decided nothing (machine load: watchdog, overlong run).
+var lastTrouble atomic.Value
 
 type cfgT struct {
 	role rig.Role
@@ -147,7 +151,7 @@ func runHistory(c *vk.Ctx, cfg cfgT, hist []int, idx int64) bool {
 			res = r.Inbound(raw)
 		}
 		if res.TimedOut {
-			c.Inconclusive("watchdog fired in [" + desc + "]")
+			lastTrouble.Store("watchdog fired in [" + desc + "]")
 			return false
 		}
 		if res.Panic != "" {
@@ -258,7 +262,7 @@ func runHistory(c *vk.Ctx, cfg cfgT, hist []int, idx int64) bool {
 					// not disturbed: a TestRequest is still answered
 					probe := r.Inbound(p.TestRequest("probe" + seq))
 					if probe.TimedOut {
-						c.Inconclusive("watchdog in probe")
+						lastTrouble.Store("watchdog in probe of [" + desc + "]")
 						return false
 					}
 					if len(probe.Outs) == 1 && identityKnown && (fixref.GetS(probe.Outs[0].Fields, rig.TSender) != idSender || fixref.GetS(probe.Outs[0].Fields, rig.TTarget) != idTarget) {
@@ -319,7 +323,7 @@ func runHistory(c *vk.Ctx, cfg cfgT, hist []int, idx int64) bool {
 		prevLogged = res.Logged
 	}
 	if tooSlow || r.Elapsed() > 3*time.Second {
-		c.Inconclusive(fmt.Sprintf("history took %v (timers may have fired): %s", r.Elapsed(), desc))
+		lastTrouble.Store(fmt.Sprintf("history took %v (timers may have fired): %s", r.Elapsed(), desc))
 		return false
 	}
 	c.Eval(vk.Hash64([]byte(desc)), reachedDecision)
@@ -352,7 +356,7 @@ func main() {
 	}
 	var jobs []job
 	for _, role := range []rig.Role{rig.Acceptor, rig.Initiator} {
-		cfg := cfgT{role: role, lim: [2]int{5, 60}, hb: 10}
+		cfg := cfgT{role: role, lim: [2]int{5, 9}, hb: 5} // small intervals: the timer goroutines of a finished history linger for N+1 s
 		for l := 1; l <= maxLen; l++ {
 			idx := make([]int, l)
 			for {
@@ -390,13 +394,30 @@ func main() {
 	c.Set("exhaustive_max_length", maxLen)
 	c.Set("random_histories", nRandom)
 	// bounded parallelism: each logged-on history leaves two timer goroutines sleeping for up to N seconds
+	var rmu sync.Mutex
+	var redo []int
 	vk.Parallel(len(jobs), runtime.NumCPU(), func(i int) {
-		ok := runHistory(c, jobs[i].cfg, jobs[i].hist, int64(i))
-		if !ok {
-			// one retry for load-caused trouble
-			c.Count("history_retries", 1)
+		if !runHistory(c, jobs[i].cfg, jobs[i].hist, int64(i)) {
+			rmu.Lock()
+			redo = append(redo, i)
+			rmu.Unlock()
 		}
 	})
+	// histories that decided nothing because the machine was overloaded are run again, one at a time, when everything else is over
+	if len(redo) > 0 {
+		time.Sleep(2 * time.Second)
+	}
+	for _, i := range redo {
+		c.Count("histories_rerun_alone", 1)
+		ok := false
+		for attempt := 0; attempt < 3 && !ok; attempt++ {
+			ok = runHistory(c, jobs[i].cfg, jobs[i].hist, int64(i))
+		}
+		if !ok {
+			why, _ := lastTrouble.Load().(string)
+			c.Inconclusive("history decided nothing in 4 attempts: " + why)
+		}
+	}
 	// real-time histories: timers armed by an earlier logon keep running after a Logout; whatever they do,
 	// the session must not report itself logged on again without a new Logon
 	nrt := c.Pick(4, 16)
